@@ -15,7 +15,7 @@ levels:
 import z3
 import time
 from .. import core
-from ..gen import core1, f1, f2, f3, f4
+from ..gen import core1, f1, f2, f3, f4, f4r
 from ..nslref import joint
 from . import famcheck
 
@@ -313,6 +313,7 @@ def family(tier, seed):
     items += f4items
     items += f1.generate(seed, 200 if tier == "quick" else 3000, depth=3, nmax=3)
     items += f3.random_calls(seed, 60 if tier == "quick" else 800)
+    items += f4r.generate(seed, 100 if tier == "quick" else 1000)
     return items
 
 
